@@ -655,6 +655,10 @@ func ruleMinkowski(rule string) func(*Ctx) {
 					bad = fmt.Sprintf("passes isSum=%s", mi.args[2].expr)
 				} else if mi.args[3].expr != "isClosed" {
 					bad = "does not pass the caller's isClosed flag"
+				} else if strings.HasSuffix(e.fn, "64") && (mi.args[0].expr != "pattern" || mi.args[1].expr != "path") {
+					bad = fmt.Sprintf("sweeps (%s, %s) instead of the caller's (pattern, path): the inputs are pre-processed", mi.args[0].expr, mi.args[1].expr)
+				} else if strings.HasSuffix(e.fn, "D") && (!strings.HasPrefix(mi.args[0].expr, "ScalePathDToPath64(pattern,") || !strings.HasPrefix(mi.args[1].expr, "ScalePathDToPath64(path,")) {
+					bad = fmt.Sprintf("sweeps (%s, %s) instead of the quantised (pattern, path)", mi.args[0].expr, mi.args[1].expr)
 				} else if un.args[1].abs.k != aInt || un.args[1].abs.i != enumByName(fills, "NonZero") {
 					bad = "final union uses fill rule " + un.args[1].expr
 				} else if !strings.HasPrefix(un.args[0].expr, "minkowskiInternal(") {
